@@ -311,7 +311,10 @@ theorem quiet_of_stuck {sys : Sys K T R} (hsw : sys.swap = false) {c : Cfg K V T
           | false => rfl
           | true => have := hp.todo_uo _ _ hw h; cases this
         have := hstuck (.visit k) rfl
-        simp [subFire, hw, hst, huo, a1, a2, a3] at this
+        have hcnt := count_le_extra_of_not_mem a3 ((sys.req s).extra k)
+        simp only [subFire, hw] at this
+        rw [if_pos ⟨hst, huo, a1, a2, hcnt⟩] at this
+        cases this
   -- the sender
   have hsnd : (c.subs s).snd = .idle := by
     cases hs : (c.subs s).snd with
@@ -681,9 +684,9 @@ def sndRank : Snd K V R → Nat
   | .sending _ => 1
   | _ => 0
 
-/-- keys the walker may still visit -/
+/-- visits the walker may still make: for every present, matched key one per matching path not used yet -/
 def cntTodo (rq : Req K T R) (sh : Shared K V T R) (vis : List K) : Nat :=
-  (sh.keys.filter (fun k => sh.present k && rq.walks k && !decide (k ∈ vis))).length
+  ((sh.keys.filter (fun k => sh.present k && rq.walks k)).map (fun k => rq.extra k + 1 - vis.count k)).sum
 
 def walkRank (rq : Req K T R) (sh : Shared K V T R) : Walker K → Nat
   | .done => 0
@@ -704,32 +707,42 @@ theorem ins_q_length (b : Sub K V R) (i : Item K R) : (b.ins i).q.length ≤ b.q
     · rw [bump_length]; omega
     · simp
 
+theorem sum_visit_lt (f : K → Nat) (vis : List K) (k : K) (hk : vis.count k ≤ f k) :
+    ∀ (l : List K), k ∈ l →
+      (l.map (fun x => f x + 1 - (k :: vis).count x)).sum < (l.map (fun x => f x + 1 - vis.count x)).sum
+  | [], h => by cases h
+  | x :: l, h => by
+    simp only [List.map_cons, List.sum_cons]
+    have hle : ∀ (l' : List K), (l'.map (fun x => f x + 1 - (k :: vis).count x)).sum ≤
+        (l'.map (fun x => f x + 1 - vis.count x)).sum := by
+      intro l'
+      induction l' with
+      | nil => exact Nat.le_refl _
+      | cons y l' ih =>
+        simp only [List.map_cons, List.sum_cons]
+        have : vis.count y ≤ (k :: vis).count y := by
+          rw [List.count_cons]; omega
+        omega
+    by_cases hxk : x = k
+    · subst hxk
+      have h1 : (x :: vis).count x = vis.count x + 1 := by simp
+      have := hle l
+      omega
+    · have hkl : k ∈ l := by
+        rcases List.mem_cons.1 h with e | e
+        · exact absurd e.symm hxk
+        · exact e
+      have ih := sum_visit_lt f vis k hk l hkl
+      have : vis.count x ≤ (k :: vis).count x := by
+        rw [List.count_cons]; omega
+      omega
+
 theorem cntTodo_visit (rq : Req K T R) (sh : Shared K V T R) (vis : List K) (k : K)
-    (hk : k ∈ sh.keys) (hp : sh.present k = true) (hw : rq.walks k = true) (hv : k ∉ vis) :
+    (hk : k ∈ sh.keys) (hp : sh.present k = true) (hw : rq.walks k = true) (hv : vis.count k ≤ rq.extra k) :
     cntTodo rq sh (k :: vis) < cntTodo rq sh vis := by
   unfold cntTodo
-  have hsub : ∀ x, (sh.present x && rq.walks x && !decide (x ∈ k :: vis)) = true →
-      (sh.present x && rq.walks x && !decide (x ∈ vis)) = true := by
-    intro x hx
-    simp only [Bool.and_eq_true, Bool.not_eq_true', decide_eq_false_iff_not, List.mem_cons, not_or] at hx ⊢
-    exact ⟨hx.1, hx.2.2⟩
-  have h1 : (sh.keys.filter (fun x => sh.present x && rq.walks x && !decide (x ∈ k :: vis))) =
-      (sh.keys.filter (fun x => sh.present x && rq.walks x && !decide (x ∈ vis))).filter (fun x => !decide (x = k)) := by
-    rw [List.filter_filter]
-    congr 1
-    funext x
-    by_cases hxk : x = k
-    · subst hxk; simp
-    · simp [hxk]
-  rw [h1]
-  have hmem : k ∈ sh.keys.filter (fun x => sh.present x && rq.walks x && !decide (x ∈ vis)) := by
-    simp [List.mem_filter, hk, hp, hw, hv]
-  have : ((sh.keys.filter (fun x => sh.present x && rq.walks x && !decide (x ∈ vis))).filter
-      (fun x => !decide (x = k))).length <
-      (sh.keys.filter (fun x => sh.present x && rq.walks x && !decide (x ∈ vis))).length := by
-    apply List.length_filter_lt_length_iff_exists.2
-    exact ⟨k, hmem, by simp⟩
-  exact this
+  apply sum_visit_lt rq.extra vis k hv
+  simp [List.mem_filter, hk, hp, hw]
 
 /-- every step of a server goroutine of the RPC decreases the measure -/
 theorem progMeasure_step {sys : Sys K T R} (hsw : sys.swap = false) {rq : Req K T R} {sh : Shared K V T R}
